@@ -52,7 +52,7 @@ def cases(seed, tier):
     out = [{'seed': seed, 'i': i, 'kind': 'plant', 'tier': tier} for i in range(N_PLANT[tier])]
     nm = 60 if tier == 'quick' else 1500
     out += [{'seed': seed, 'i': i, 'kind': 'missing', 'tier': tier} for i in range(nm)]
-    nd = 200 if tier == 'quick' else 1250
+    nd = 300 if tier == 'quick' else 1850
     out += [{'seed': seed, 'i': i, 'kind': 'directed', 'tier': tier} for i in range(nd)]
     return out
 
@@ -905,6 +905,74 @@ def _directed_child(payload):
                 p_.set_value('number_of_draws', 4, 'MonteCarlo')
                 bg = BIOGEME(db, e, parameters=p_)
                 out['value'] = [float(bg.calculate_likelihood([0.2] * len(bg.free_beta_names), scaled=False))]
+        elif k.startswith('twodb_'):
+            # the SAME formula objects used with two Database objects in turn: the verdict of the second use must depend on
+            # the second data set only (nothing remembered from the first audit / preparation)
+            from biogeme.biogeme import BIOGEME
+            from biogeme.parameters import Parameters
+
+            _, order, fault = k.split('_', 2)
+            X, Y, CH = ex.Variable('x'), ex.Variable('y'), ex.Variable('ch')
+            dfv, dff = df.copy(), df.copy()
+            row = rr.randrange(n)
+            panel_valid = False
+            if fault == 'choice':
+                bad = float(max(alts) + 7)
+                dff.loc[row, 'ch'] = bad
+                e = models.loglogit(V, None, CH)
+                out['names'] = [str(bad), str(int(bad))]
+            elif fault == 'choiceav':
+                # same fault with explicit availabilities (a chosen alternative that is merely unavailable is only a
+                # warning in the library and is not a fault of the statement: not planted)
+                bad = float(max(alts) + 7)
+                dff.loc[row, 'ch'] = bad
+                for a in alts:
+                    dfv[f'av_{a}'] = 1.0
+                    dff[f'av_{a}'] = 1.0
+                e = models.loglogit(V, {a: ex.Variable(f'av_{a}') for a in alts}, CH)
+                out['names'] = [str(bad), str(int(bad))]
+            elif fault == 'column':
+                dfv['z'] = [rr.uniform(0, 1) for _ in range(n)]
+                e = b * X + ex.Variable('z') * Y
+                out['names'] = ['z']
+            elif fault == 'panel':
+                inner = ex.exp(b * X) / (1 + ex.exp(b * X))
+                e = ex.log(ex.PanelLikelihoodTrajectory(inner))
+                panel_valid = True
+            # (on panel data no row variable may sit outside the trajectory: parameter-only wrappers there)
+            wrap = rr.choice(['root', 'addbeta', 'exp', 'neg', 'elembeta'] if fault == 'panel' else ['root', 'add', 'exp', 'elem', 'multsum', 'cmp', 'neg'])
+            e = {'root': lambda: e, 'add': lambda: e + b * X, 'addbeta': lambda: e + b * 2, 'elembeta': lambda: ex.Elem({0: e, 1: e * 2}, b > 5), 'exp': lambda: ex.exp(e), 'elem': lambda: ex.Elem({0: e, 1: e * 2}, X > 0),
+                 'multsum': lambda: ex.bioMultSum([e, b * Y]), 'cmp': lambda: e * (Y > 0), 'neg': lambda: -e}[wrap]()
+            out['wrap'] = wrap
+            entry = rr.choice(['get_value_c', 'BIOGEME', 'simulate'])
+            out['entry'] = entry
+
+            def mkdb(frame, panel):
+                d_ = dbm.Database('d', frame.copy())
+                if panel:
+                    d_.panel('id')
+                return d_
+
+            def use(d_):
+                if entry == 'get_value_c':
+                    return np.asarray(e.get_value_c(database=d_, prepare_ids=True), float).tolist()
+                if entry == 'BIOGEME':
+                    bg_ = BIOGEME(d_, e, parameters=Parameters())
+                    return [float(bg_.calculate_likelihood([0.2] * len(bg_.free_beta_names), scaled=False))]
+                bg_ = BIOGEME(d_, {'f': e}, parameters=Parameters())
+                return np.asarray(bg_.simulate({'b_dir': 0.2})['f'], float).tolist()
+
+            dbs = {'v': mkdb(dfv, panel_valid), 'f': mkdb(dff, False), 'w': mkdb(dfv.iloc[::-1].reset_index(drop=True), panel_valid)}
+            first, second = {'vf': ('v', 'f'), 'fv': ('f', 'v'), 'vv': ('v', 'w')}[order]
+            try:
+                out['first_value'] = use(dbs[first])
+                out['first'] = 'ok'
+            except BaseException as e1:
+                out['first'] = 'exc'
+                out['first_type'] = type(e1).__name__
+                out['first_biogeme_error'] = isinstance(e1, bexc.BiogemeError)
+                out['first_msg'] = str(e1)[:500]
+            out['value'] = use(dbs[second])
         elif k.startswith('linutil_missing'):
             code = 99999
             df.loc[1, 'x'] = code
@@ -933,7 +1001,8 @@ DIRECTED = ['nl_ok', 'nl_overlap', 'nl_overlap_nonadjacent', 'nl_outside', 'cnl_
             'data_empty', 'flags_ok', 'flags_hessian_without_gradient', 'flags_bhhh_without_gradient', 'panel_ok',
             'panel_variable_outside_trajectory', 'linutil_missing_value', 'linutil_missing_likelihood',
             'dup_ok', 'dup_beta_draws', 'dup_beta_rv', 'dup_draws_column', 'dup_rv_column', 'dup_draws_rv',
-            'placement_draws_beside_montecarlo', 'placement_rv_beside_integral']
+            'placement_draws_beside_montecarlo', 'placement_rv_beside_integral'] + [
+    f'twodb_{o}_{f}' for f in ('choice', 'choiceav', 'column', 'panel') for o in ('vf', 'fv', 'vv')]
 
 
 def _directed_case(case, rec):
@@ -950,6 +1019,26 @@ def _directed_case(case, rec):
             rec.violation(f'C12/{what}-native-crash', str(res), wit)
         else:
             rec.inconc(f'directed case gave no result: {str(res)[:300]}')
+        return
+    if what.startswith('twodb_'):
+        _, order, fault = what.split('_', 2)
+        rec.c(f'twodb_{res.get("entry")}_{res.get("wrap")}')
+        wit.update({'entry': res.get('entry'), 'wrap': res.get('wrap'), 'first': res.get('first'), 'first_msg': res.get('first_msg')})
+        if order in ('vf', 'vv') and res.get('first') != 'ok':
+            rec.violation(f'C12/valid-specification-rejected-{what}', f'first use (valid data): {res.get("first_type")}: {res.get("first_msg")}', wit)
+            return
+        if order == 'fv' and res.get('first') == 'ok':
+            rec.violation(f'C12/twodb_{fault}-{res.get("entry")}-not-rejected', f'first use (faulty data) accepted; value={res.get("first_value")}', wit)
+            return
+        if order == 'vf':
+            # the second use is the faulty one: it must be refused although the same objects were accepted on other data before
+            _judge_outcome(rec, res, f'twodb_{fault}_after_valid_use_of_same_objects', res.get('entry'), res.get('names'), wit, res.get('wrap'), fault)
+        elif res['outcome'] != 'ok':
+            rec.violation(f'C12/valid-specification-rejected-after-same-objects-were-{"refused" if order == "fv" else "used"}-on-other-data',
+                          f'{what} via {res.get("entry")}: {res.get("type")}: {res.get("msg", "")[:300]} (first use: {res.get("first")} '
+                          f'{res.get("first_msg", "")[:200]})', wit)
+        else:
+            rec.c('twodb_second_use_accepted_as_it_should')
         return
     if what.endswith('_ok'):
         if res['outcome'] != 'ok':
